@@ -331,7 +331,7 @@ fn main() {
             }
         }
     }
-    let samples = if thorough { 600 } else { 40 };
+    let samples = if thorough { 1500 } else { 40 };
     for k in 0..samples {
         let t = *rng.pick(&triples);
         let op = ops[k % 3];
@@ -350,7 +350,7 @@ fn main() {
     // sparse multi-output lists for the covering optimizers: every output is the OR of 1..3 cubes of a small
     // shared pool (so that sharing a cube that is prime in no output can pay off); the oracle's state space is
     // 2^(sum of the on-set sizes), kept <= 2^16.  n = 3 with 3 outputs, n = 4 with 2 and 3 outputs.
-    let sparse = if thorough { 1500 } else { 90 };
+    let sparse = if thorough { 4500 } else { 90 };
     for k in 0..sparse {
         let (n, outs) = [(4usize, 2usize), (3, 3), (4, 3)][k % 3];
         let t = *rng.pick(&triples);
